@@ -40,9 +40,18 @@ Theorem C06_cadence_iff : forall ts by_ sched now,
   (sched + by_ <= grid ts by_ now <-> by_ <= now - ts).
 Proof. exact cadence_iff. Qed.
 
-(* REFUTED full statement (known finding C06-cadence-rebased-grid) *)
+(* REFUTED full statement (known finding cadence_grid_anchored_at_timestamp) *)
 Theorem C06_cadence_refuted : exists ts by_ sched now, 0 < by_ /\ ts < sched <= ts + by_ /\ sched <= now /\ grid ts by_ now < sched + by_.
 Proof. exact cadence_refuted. Qed.
+
+(* REFUTED, second pattern of the same finding: first slot = deferred_until, off the timestamp grid *)
+Theorem C06_cadence_after_deferred_until_refuted : exists ts by_ sched now, 0 < by_ /\ ts < sched /\ sched <= now /\ grid ts by_ now < sched + by_.
+Proof. exact cadence_after_deferred_until_refuted. Qed.
+
+(* PARTIAL: a slot on the grid of the current time base is followed by a slot at least one period later, however late the run *)
+Theorem C06_cadence_aligned : forall ts by_ k now,
+  0 < by_ -> ts + k * by_ <= now -> ts + k * by_ + by_ <= grid ts by_ now.
+Proof. exact cadence_aligned. Qed.
 
 (* PARTIAL: holds when consecutive completions are at least one period apart *)
 Theorem C06_cadence_partial : forall ts by_ sched now,
@@ -62,4 +71,6 @@ Print Assumptions C06_first_run_deferred.
 Print Assumptions C06_cadence_iff.
 Print Assumptions C06_cadence_refuted.
 Print Assumptions C06_cadence_partial.
+Print Assumptions C06_cadence_after_deferred_until_refuted.
+Print Assumptions C06_cadence_aligned.
 Print Assumptions C06_reschedule_restarts_clock.
